@@ -19,6 +19,7 @@ package badmetrics
 // other; a clean-up only removes entries; a query changes nothing.
 //@ func (b *BadMetrics) manage()
 //@   property C02,C14
+//@   never_returns
 //@   requires b.seen != nil && b.In != nil && b.getReq != nil && b.getResp != nil
 //@   modifies *
 //@   loop 1:
